@@ -205,7 +205,7 @@ def _cmd(c, i, kind, end, vlen=0):
         return _vt.CommandHeader2(flags, pt, dr, c.int(f"call{i}", 0, (1 << 32) - 1), c.int(f"cid{i}", 0, 65535), c.int(f"op{i}", 0, 65535))
     typ = c.int(f"typ{i}", 0, 0x3FFF)
     c.assume(all_of([typ != 1, typ != 2, typ != 3]))
-    return _vt.Command(typ if c.symbolic else _vt.CommandType(typ), flags, c.bytes(f"val{i}", vlen))
+    return _vt.Command(c.call(_vt.CommandType, typ), flags, c.bytes(f"val{i}", vlen))
 
 
 def _vt_params(tier):
@@ -239,7 +239,7 @@ def _floor(c, i, kind, l=0, r=0):
         return _epm.UUIDFloor(U(c, f"fu{i}"), c.int(f"fv{i}", 0, 65535), c.int(f"fvm{i}", 0, 65535))
     proto = c.int(f"proto{i}", 0, 255)
     c.assume(all_of([proto != 7, proto != 9, proto != 0x0B, proto != 0x0D]))
-    return _epm.Floor(proto if c.symbolic else _epm.FloorProtocol(proto), c.bytes(f"lhs{i}", l), c.bytes(f"rhs{i}", r))
+    return _epm.Floor(c.call(_epm.FloorProtocol, proto), c.bytes(f"lhs{i}", l), c.bytes(f"rhs{i}", r))
 
 
 def _floors(c, spec):
